@@ -7,7 +7,7 @@ from . import common as C
 
 PROBES = os.path.join(C.ROOT, "probes")
 
-def run(R, prop, repo_dir):
+def run(R, prop, repo_dir, wire_exe=None):
     if not os.path.isdir(PROBES):
         return
     ran = []
@@ -21,10 +21,12 @@ def run(R, prop, repo_dir):
         meta = json.load(open(mp))
         if prop not in meta["properties"]:
             continue
-        rc, out = C.run(["bash", os.path.join(d, "run.sh"), C.REPO], timeout=600,
-                        extra_env={"KESSOKU_BIN": os.path.join(repo_dir, "kessoku"), "PROBE_TMP": tmp, "GOFLAGS": "", "GOWORK": ""})
+        xenv = {"KESSOKU_BIN": os.path.join(repo_dir, "kessoku"), "PROBE_TMP": tmp, "GOFLAGS": "", "GOWORK": ""}
+        if meta.get("needs_wire") and wire_exe:
+            xenv["WIRE_BIN"] = wire_exe
+        rc, out = C.run(["bash", os.path.join(d, "run.sh"), C.REPO], timeout=900, extra_env=xenv)
         ran.append(name)
-        lines = [l.strip() for l in out.splitlines() if l.startswith("VIOLATED")]
+        lines = [l.strip() for l in out.splitlines() if l.startswith(("VIOLATED", "VIOLATION ("))]
         sources = {}
         for root, _, files in os.walk(os.path.join(d, "src")):
             for f in files:
